@@ -285,7 +285,13 @@ type txSess struct {
 	own         map[txTarget]*vsql.Table
 	dirtyBranch string
 	// reads of this transaction: target key -> committed version at the time of the read
-	readVer map[string]int
+	readVer   map[string]int
+	readOrder []txReadKey
+}
+
+type txReadKey struct {
+	tgt  txTarget
+	head bool
 }
 
 func (s *txSess) cur() string {
@@ -310,6 +316,7 @@ func (m *txModel) begin(s *txSess) {
 	s.own = map[txTarget]*vsql.Table{}
 	s.dirtyBranch = ""
 	s.readVer = map[string]int{}
+	s.readOrder = nil
 }
 
 func (m *txModel) end(s *txSess) {
@@ -318,6 +325,7 @@ func (m *txModel) end(s *txSess) {
 	s.own = nil
 	s.dirtyBranch = ""
 	s.readVer = nil
+	s.readOrder = nil
 }
 
 // view is what a read of the working table tgt (head=false) or of the branch head (head=true)
